@@ -10,7 +10,7 @@
 // creation, after RESET, RUNNING (forced / allowInRunning), after a STOP, in ERROR after a failed
 // START, creation itself fails at CONFIGURE}. Oracle: when the destroy request has returned and the
 // environment is gone, no goroutine of callable.Call is left blocked (a call that was started is
-// either collected or cancelled), and every call ran once per time its trigger was reached.
+// either collected or cancelled), and no call ran more often than its trigger was reached.
 package main
 
 import (
@@ -141,8 +141,10 @@ func scenario() *vrt.Scenario {
 				n[c]++
 			}
 			for _, c := range []string{"never", "until-reset", "during-run"} {
-				if n[c] != wantRun[c] {
-					out = append(out, vrt.Violation{Clause: fmt.Sprintf("call-ran-%d-times-want-%d:%s:%s", n[c], wantRun[c], c, life), Detail: ctx})
+				// not more often than its trigger was reached (under a non-default schedule a request may fail earlier
+				// than planned, so fewer is not judged here: that a triggered call is started is the subject of harness c08)
+				if n[c] > wantRun[c] {
+					out = append(out, vrt.Violation{Clause: fmt.Sprintf("call-ran-%d-times-want-at-most-%d:%s:%s", n[c], wantRun[c], c, life), Detail: ctx})
 				}
 			}
 			return
